@@ -203,9 +203,8 @@ func c16ParseRaces(stderr string) []c16RaceReport {
 }
 
 const (
-	c16OpenapiPkg           = "sigs.k8s.io/kustomize/kyaml/openapi."
-	c16UnknownVersionPoison = "C16/concurrent-build-disturbed-by-unknown-openapi-version"
-	c16MapFatal             = "C16/fatal-concurrent-map-access"
+	c16OpenapiPkg = "sigs.k8s.io/kustomize/kyaml/openapi."
+	c16MapFatal   = "C16/fatal-concurrent-map-access"
 )
 
 // c16RaceClass: no race pair is listed any more — both confirmed races are repaired in /repo (db2770f: read lock in
@@ -446,18 +445,10 @@ func c16EvalRace(r *Run, spec c16RaceSpec, job c16RaceJob, outs [][][]string, st
 				r.AddEval(fmt.Sprintf("race-%d-%d-%s", ri, ti, job.Alone[ri][ti]), true)
 				if o != job.Alone[ri][ti] {
 					r.Count("concurrent_result", "differs")
+					// no shape is listed any more: the former finding C16/concurrent-build-disturbed-by-unknown-openapi-version
+					// (SetSchema stored an unknown version before rejecting it) is repaired in /repo 7964400; rounds with
+					// unknown-version builds stay as regression input
 					cls := "C16/concurrent-result-differs"
-					// the one listed shape (finding): the round contains a build that names an `openapi: version` which is
-					// not built in. SetSchema stores that version BEFORE rejecting it; a concurrent build whose initSchema
-					// runs in between tries to load it (nil asset function: panic, schemaInit left set, nothing parsed) and
-					// every build of the round then works without schema (lists replaced) or panics
-					if ri < len(spec.Rounds) {
-						for _, t := range spec.Rounds[ri].Trees {
-							if t.Schema < 0 && t.Ver != nil && *t.Ver != "" && *t.Ver != "v1.21.2" {
-								cls = c16UnknownVersionPoison
-							}
-						}
-					}
 					r.Violation(OracleViolation{Law: "concurrent_equals_alone", Class: cls,
 						Detail: fmt.Sprintf("round %d tree %d: concurrent output differs from the output of the tree built alone\n--- alone\n%s\n--- concurrent\n%s", ri, ti, job.Alone[ri][ti], o),
 						Replay: replay()})
